@@ -16,3 +16,6 @@ func SetValidator(f func(name string) error) {
 
 // SetMergeBuffer sets the merge output buffer size (process-global).
 func SetMergeBuffer(n int) { zap.DefaultFileMergerBufferSize = n }
+
+// SynCacheLen: number of thesauri held by the segment's synonym cache (hook, tag verif).
+func SynCacheLen(s interface{}) int { return zap.VerifSynCacheLen(s) }
